@@ -57,7 +57,7 @@ try:
         keys = [l.strip()[5:] for l in rc.stdout.split("\n") if l.strip().startswith("key: ")]
         v = {"exit": rc.returncode, "violation_keys": keys[:12], "wall_s": round(time.time() - t0)}
         if rc.returncode != 0:
-            v["tail"] = rc.stdout[-1500:]
+            v["tail"] = rc.stdout[-1500:] + "\n--stderr--\n" + rc.stderr[-2500:]
         return c, v
 
     with ThreadPoolExecutor(max_workers=int(os.environ.get("BENIGN_PAR", "3"))) as ex:
